@@ -28,6 +28,7 @@ type Case struct {
 	Lens  []int    `json:"lens"` // element lengths (bytes for str, items for sequences); cycled over the elements
 	Seed  int      `json:"seed"`
 	Extra bool     `json:"extra"` // a second vlen dataset shares the file (collections interleave)
+	After bool     `json:"after"` // a plain dataset is created and written after the vlen writes (heap collections must not reach into it)
 }
 
 var elemSize = map[string]int{"str": 1, "i32": 4, "i64": 8, "u32": 4, "u64": 8, "f32": 4, "f64": 8}
@@ -36,7 +37,7 @@ var dtypes = map[string]hdf5.Datatype{"str": hdf5.VLenString, "i32": hdf5.VLenIn
 
 func gen(t *rapid.T) Case {
 	c := Case{SB: rapid.SampledFrom([]int{2, 2, 0, 3}).Draw(t, "sb"), Type: rapid.SampledFrom([]string{"str", "str", "i32", "i64", "u32", "u64", "f32", "f64"}).Draw(t, "type"),
-		Seed: rapid.IntRange(0, 1<<20).Draw(t, "seed"), Extra: rapid.IntRange(0, 3).Draw(t, "extra") == 0}
+		Seed: rapid.IntRange(0, 1<<20).Draw(t, "seed"), Extra: rapid.IntRange(0, 3).Draw(t, "extra") == 0, After: rapid.Bool().Draw(t, "after")}
 	maxN := vt.N(200, 10000)
 	n := rapid.OneOf(rapid.IntRange(1, 12), rapid.IntRange(1, 200), rapid.IntRange(1, maxN)).Draw(t, "n")
 	if rapid.IntRange(0, 3).Draw(t, "rank2") == 0 && n >= 2 {
@@ -232,6 +233,22 @@ func run(c Case) vt.Verdict {
 		}
 		all = append(all, dsInfo{p, want})
 	}
+	var afterWant []float64
+	if c.After {
+		// an ordinary dataset allocated and written after the heap collections were sized
+		zn := 600
+		z, err := fw.CreateDataset("/z", hdf5.Float64, []uint64{uint64(zn)})
+		if err != nil {
+			return vt.Bad("CreateDataset(/z) after the vlen writes: %v", err)
+		}
+		afterWant = make([]float64, zn)
+		for i := range afterWant {
+			afterWant[i] = float64(1000 + i)
+		}
+		if err := z.Write(afterWant); err != nil {
+			return vt.Bad("Write(/z): %v", err)
+		}
+	}
 	if err := fw.Close(); err != nil {
 		return vt.Bad("Close: %v", err)
 	}
@@ -369,6 +386,21 @@ func run(c Case) vt.Verdict {
 		}
 		if vals, err := d.Read(); err == nil {
 			return vt.Bad("%s: Read() returned %d float64 values for variable-length data", di.path, len(vals))
+		}
+	}
+	if c.After {
+		d := found["/z"]
+		if d == nil {
+			return vt.Bad("/z (created after the vlen data) missing after reopen")
+		}
+		got, err := d.Read()
+		if err != nil {
+			return vt.Bad("/z (created after the vlen data): Read: %v", err)
+		}
+		for i := range afterWant {
+			if i >= len(got) || got[i] != afterWant[i] {
+				return vt.Bad("/z (created after the vlen data) element %d reads %v, written %v: a heap collection overwrote it", i, got[i], afterWant[i])
+			}
 		}
 	}
 	// (3) every collection well-formed (sizes, alignment, indices) - checked by the decoder while it walked them;
